@@ -44,4 +44,15 @@ def main(smoke=False, seed=1, only=None):
             print("SELFTEST %s: %d runs x 2 executions (16 vs %d workers, shifted PYTHONHASHSEED): digests equal" % (
                 pid, n, 3 if not smoke else 8))
         sys.stdout.flush()
+    # the guarded hook only observes: with the guard off the same runs give the same digests
+    if only is None or "C01" in only:
+        a, _ = runner.run_batch("C01", "quick", 9100 + seed, n, 600, nproc=16)
+        b, _ = runner.run_batch("C01", "quick", 9100 + seed, n, 600, nproc=16,
+                                extra_env={runner.GUARD: "0"})
+        diff = [(x["i"], x["seed"]) for x, y in zip(a, b) if x.get("digest") != y.get("digest") or x.get("err") or y.get("err")]
+        if diff:
+            print("SELFTEST hook guard: digests differ with %s=0: %s" % (runner.GUARD, diff[:5]))
+            bad += 1
+        else:
+            print("SELFTEST hook guard: %d C01 runs with %s=1 and =0: digests equal" % (n, runner.GUARD))
     return 2 if bad else 0
